@@ -16,9 +16,9 @@
 (*         zero / ramp / clean-tail shape, and the delay buffer after the call equals the last encoder_buffer samples  *)
 (*         of the filtered stream.  This is the index-level half of the look-ahead contract (C04 / C11).              *)
 EXTENDS EncDelay, Json, IOUtils, TLC
-VARIABLES tl, tc, tf, ts
+VARIABLES tl, tc, tf, ts, tq
 
-tvars == <<tl, tc, tf, ts>>
+tvars == <<tl, tc, tf, ts, tq>>
 Tr == ndJsonDeserialize(IOEnv.TRACE)
 NEv == Len(Tr)
 Names(pairs) == {p[1] : p \in {x \in pairs : ~x[2]}}
@@ -27,7 +27,7 @@ Names(pairs) == {p[1] : p \in {x \in pairs : ~x[2]}}
 ObsRole(o) == IF o[1] = 0 THEN (IF o[2] = 0 THEN {"main"} ELSE {"prefill"})
               ELSE IF o[2] = 0 THEN {"main"} ELSE IF o[2] = 1 THEN {"prefill", "prefill2"} ELSE {"red"}
 
-MatchCall(c, x, o, b, i, nb, efs, filled, strict, fadedT) ==
+MatchCall(c, x, o, b, i, nb, efs, filled, strict, fadedT, clean) ==
   LET expLag == c.ch * ((nb - i) * efs - WinLo(c, x)) IN
   /\ (x.k = "silk") = (o[1] = 0)
   /\ x.role \in ObsRole(o)
@@ -38,44 +38,61 @@ MatchCall(c, x, o, b, i, nb, efs, filled, strict, fadedT) ==
   /\ CASE x.k = "silk" /\ x.role = "main" -> o[7] = expLag /\ o[11] = 0
        [] x.k = "silk" /\ x.role = "prefill" ->
             /\ o[9] >= c.ch * (EB(c) - DC(c) - N4(c)) /\ (filled = EB(c) => o[9] = c.ch * (EB(c) - DC(c) - N4(c)))
-            /\ o[10] >= DC(c) * c.ch
-       [] x.arr = "T" -> o[8] = 1 \/ o[7] = expLag \/ (o[7] = 0 - 1 /\ fadedT)
+            /\ (clean => o[10] >= DC(c) * c.ch)
+       [] x.arr = "T" -> o[8] = 1 \/ o[7] = expLag \/ (o[7] = 0 - 1 /\ (fadedT \/ ~clean))
        [] OTHER -> o[8] = 1 \/ o[7] = expLag \/ (o[7] = 0 - 1 /\ ~(strict /\ x.n >= 2 * N4(c)))
 
 FirstP(R) == LET PS == {j \in 1..Len(R.calls) : R.calls[j].arr = "P"} IN IF PS = {} THEN 0 ELSE CHOOSE j \in PS : \A k \in PS : j <= k
 
-MatchSlice(c, filled, d, efs, obs, pos, i, nb, strict) ==
-  LET R == Slice(c, Canon(c, filled), d, efs)
-      L == Len(R.calls)
+\* the (kind, role) signature of a slice's calls, straight from the decision record (a cheap filter before Slice is evaluated)
+Sig(d) ==
+  LET doTp == d.mode # MODE_SILK /\ d.mode # d.prev /\ d.prev > 0 IN
+     (IF d.mode # MODE_CELT /\ d.pf > 0 THEN << <<0, 1>> >> ELSE <<>>) \o (IF d.mode # MODE_CELT THEN << <<0, 0>> >> ELSE <<>>)
+  \o (IF d.red = 1 /\ d.c2s = 1 THEN << <<1, 2>> >> ELSE <<>>) \o (IF doTp THEN << <<1, 1>> >> ELSE <<>>)
+  \o (IF d.mode # MODE_SILK /\ d.cm = 1 THEN << <<1, 0>> >> ELSE <<>>)
+  \o (IF d.red = 1 /\ d.c2s = 0 THEN << <<1, 1>>, <<1, 2>> >> ELSE <<>>)
+SigFits(d, obs, pos, last) ==
+  LET g == Sig(d) IN
+  /\ pos + Len(g) <= Len(obs) /\ (last => pos + Len(g) = Len(obs))
+  /\ \A j \in 1..Len(g) : obs[pos + j][1] = g[j][1] /\ obs[pos + j][2] = g[j][2]
+
+MatchSlice(c, filled, R, d, efs, obs, pos, i, nb, strict, clean) ==
+  LET L == Len(R.calls)
       jp == FirstP(R)
   IN /\ pos + L <= Len(obs)
      /\ (i = nb - 1 => pos + L = Len(obs))
      /\ LET b == IF jp = 0 \/ pos + jp > Len(obs) THEN 0 ELSE obs[pos + jp][4] - R.calls[jp].off IN
-        \A j \in 1..L : MatchCall(c, R.calls[j], obs[pos + j], b, i, nb, efs, filled, strict, d.mode # MODE_CELT /\ d.pf > 0)
+        \A j \in 1..L : MatchCall(c, R.calls[j], obs[pos + j], b, i, nb, efs, filled, strict, d.mode # MODE_CELT /\ d.pf > 0, clean)
 
-RECURSIVE MatchFrom(_, _, _, _, _, _, _, _, _, _)
-MatchFrom(c, filled, mode, prev0, efs, nb, i, obs, pos, strict) ==
+RECURSIVE MatchFrom(_, _, _, _, _, _, _, _, _, _, _)
+MatchFrom(c, filled, mode, prev0, efs, nb, i, obs, pos, strict, clean) ==
   IF i = nb THEN pos = Len(obs)
-  ELSE \E d \in {x \in Decisions : x.mode = mode /\ (i = 0 => x.prev = prev0)} :
-         /\ MatchSlice(c, filled, d, efs, obs, pos, i, nb, strict)
-         /\ MatchFrom(c, Min(filled + efs, EB(c)), mode, prev0, efs, nb, i + 1, obs, pos + Len(Slice(c, Canon(c, filled), d, efs).calls), strict)
+  ELSE \E d \in {x \in Decisions : x.mode = mode /\ (i = 0 => x.prev = prev0) /\ SigFits(x, obs, pos, i = nb - 1)} :
+         \E R \in {Slice(c, Canon(c, filled), d, efs)} :
+           /\ MatchSlice(c, filled, R, d, efs, obs, pos, i, nb, strict, clean)
+           /\ MatchFrom(c, Min(filled + efs, EB(c)), mode, prev0, efs, nb, i + 1, obs, pos + Len(R.calls), strict, clean)
 
-JudgeEnc(c, e, filled) ==
+JudgeEnc(c, e, filled, clean) ==
   LET low   == e.calls = <<>>
       mode  == e.post[1]
       legal == mode \in {MODE_SILK, MODE_HYB, MODE_CELT} /\ e.fs \in FrameSizes(c)
       efs   == IF legal THEN EncFrameSize(c, e.fs, mode) ELSE 1
       nb    == IF legal THEN NbFrames(c, e.fs, mode) ELSE 1
-      \* no gain change can have touched pcm_buf: HB gain 1 before and after, no stereo narrowing (single-slice calls)
-      strict == /\ nb = 1
-                /\ (c.ch = 1 \/ (e.fade[1] = 1 /\ e.fade[3] = 1 /\ e.fade[2] = 16384 /\ e.fade[4] = 16384 /\ e.fade[5] = 16384))
+      \* the harness rebuilds the filtered stream H from what SILK's main call is handed, or - in CELT-only frames - from
+      \* pcm_buf as CELT sees it, i.e. after stereo_fade: H is the true stream only when no stereo narrowing was in effect
+      \* (sn).  `clean` says that the last encoder_buffer samples of H were true before this call.
+      sn     == c.ch = 1 \/ (e.fade[2] = 16384 /\ e.fade[4] = 16384 /\ e.fade[5] = 16384)
+      cleanCall == mode # MODE_CELT \/ sn
+      cleanAfter == IF low \/ e.r <= 0 THEN clean ELSE cleanCall /\ (e.fs >= EB(c) \/ clean)
+      \* a CELT window must be located (bit-exactly, or mono up to one gain) in single-slice calls on a clean history
+      strict == nb = 1 /\ sn /\ clean /\ (c.ch = 1 \/ (e.fade[1] = 1 /\ e.fade[3] = 1))
       prop == Names({
          <<"C02.EncodeSucceeds", e.mx < 3 \/ e.r > 0>>,
          <<"C11.LookaheadGetter", e.la = Lookahead(c)>>,
          <<"C05.PacketCanary", e.can = 1>> })
       drift == Names({
-         <<"LayerCalls", low \/ e.r <= 0 \/ (legal /\ e.ovf = 0 /\ MatchFrom(c, filled, mode, e.pre[2], efs, nb, 0, e.calls, 0, strict))>>,
-         <<"DelayBufferHoldsLastInput", e.dbm = 0>>,
+         <<"LayerCalls", low \/ e.r <= 0 \/ (legal /\ e.ovf = 0 /\ MatchFrom(c, filled, mode, e.pre[2], efs, nb, 0, e.calls, 0, strict, clean))>>,
+         <<"DelayBufferHoldsLastInput", cleanAfter => e.dbm = 0>>,
          <<"SlicesTile", ~legal \/ SlicesTile(c, e.fs, mode)>> })
       oc(j) == e.calls[j]
       nc == Len(e.calls)
@@ -91,11 +108,11 @@ JudgeEnc(c, e, filled) ==
          \cup (IF \E j \in 1..nc : oc(j)[1] = 1 /\ oc(j)[2] = 0 /\ oc(j)[7] > 0 /\ oc(j)[11] = 0 THEN {"celtWindowExact"} ELSE {})
          \cup (IF \E j \in 1..nc : oc(j)[1] = 1 /\ oc(j)[2] = 0 /\ oc(j)[7] > 0 /\ oc(j)[11] = 1 THEN {"celtWindowScaled"} ELSE {})
          \cup (IF mode = MODE_SILK THEN {"silk"} ELSE IF mode = MODE_HYB THEN {"hybrid"} ELSE {"celt"})
-  IN [prop |-> prop, drift |-> drift, tags |-> tags,
+  IN [prop |-> prop, drift |-> drift, tags |-> tags \cup (IF cleanAfter /\ ~low THEN {"delayBufferCompared"} ELSE {}), clean |-> cleanAfter,
       filled |-> IF low \/ e.r <= 0 THEN filled ELSE Min(filled + e.fs, EB(c))]
 
 -----------------------------------------------------------------------------
-Init == /\ tl = 1 /\ tc = [Fs |-> 48000, ch |-> 1, app |-> APP_AUDIO] /\ tf = 0 /\ ts = {}
+Init == /\ tl = 1 /\ tc = [Fs |-> 48000, ch |-> 1, app |-> APP_AUDIO] /\ tf = 0 /\ ts = {} /\ tq = TRUE
 
 Report(kind, names) == PrintT("REJ " \o ToString(<<tl, kind, names>>))
 Finish(s) == IF tl = NEv THEN PrintT("SEEN " \o ToString(s)) ELSE TRUE
@@ -105,24 +122,25 @@ Step ==
   /\ LET e == Tr[tl] IN
      CASE e.k = "new" ->
             LET c == [Fs |-> e.Fs, ch |-> e.ch, app |-> e.app] IN
-            /\ tc' = c /\ tf' = 0
+            /\ tc' = c /\ tf' = 0 /\ tq' = TRUE
             /\ (IF c \notin Configs \/ e.eb # EB(c) \/ e.dc # DC(c) \/ e.dz # 1 \/ e.st[2] # 0 THEN Report("drift", {"InitialState"}) ELSE TRUE)
             /\ (IF c \in Configs /\ e.la # Lookahead(c) THEN Report("prop", {"C11.LookaheadGetter"}) ELSE TRUE)
             /\ ts' = ts \cup {"new"} /\ Finish(ts')
        [] e.k = "ctl" ->
             LET isrs == e.rq = "rs" /\ e.r = 0 IN
             /\ tf' = IF isrs THEN 0 ELSE tf
+            /\ tq' = (isrs \/ tq)
             /\ UNCHANGED tc
             /\ (IF e.la # Lookahead(tc) THEN Report("prop", {"C11.LookaheadGetter"}) ELSE TRUE)
             /\ (IF isrs /\ (e.dz # 1 \/ e.st[2] # 0 \/ e.st[3] # 1) THEN Report("prop", {"C12.ResetIsFresh"}) ELSE TRUE)
             /\ ts' = ts \cup (IF isrs THEN {"reset"} ELSE {}) /\ Finish(ts')
        [] e.k = "enc" ->
-            \E v \in {JudgeEnc(tc, e, tf)} :
-              /\ tf' = v.filled /\ UNCHANGED tc
+            \E v \in {JudgeEnc(tc, e, tf, tq)} :
+              /\ tf' = v.filled /\ tq' = v.clean /\ UNCHANGED tc
               /\ (IF v.prop # {} THEN Report("prop", v.prop) ELSE TRUE)
               /\ (IF v.drift # {} THEN Report("drift", v.drift) ELSE TRUE)
               /\ ts' = ts \cup v.tags /\ Finish(ts')
-       [] OTHER -> UNCHANGED <<tc, tf, ts>> /\ Finish(ts)
+       [] OTHER -> UNCHANGED <<tc, tf, ts, tq>> /\ Finish(ts)
   /\ tl' = tl + 1
 
 Spec == Init /\ [][Step]_tvars
